@@ -1332,7 +1332,8 @@ class String(ConstantOpcode):
     priority = Unicode.priority + 1
 
     def encode_body(self) -> bytes:
-        return repr(self.arg).encode("utf-8")
+        # a quoted, escaped (8-bit) string literal terminated by a newline
+        return repr(self.arg.encode("latin-1"))[1:].encode("ascii") + b"\n"
 
     @classmethod
     def validate(cls, obj):
